@@ -190,3 +190,6 @@ for e in all_entries():
         OBLIGATIONS.append(entry_obl(fam, forms, e, extra=q, narrow=True, budget=90, tiers=("quick",), extra_shards=fsh))
 OBLIGATIONS.append(Obl("len_forms", len_forms, {"n": I(0, 2 ** 40), "pad": I(0, 2), "x": BYTE}, thorough={"n": I(0, 2 ** 62)}, budget=60,
                        doc="decoder length octets: every n in range, minimal and over-long forms"))
+
+# quick tier: entries added for other properties' sake run in the thorough tier only here
+demote(OBLIGATIONS, ['set_chx', 'seq_hitags', 'seq_hitags.E', 'seq_wide', 'seq_optnull', 'seqof_choice_cons'])
